@@ -89,6 +89,7 @@ structure C05St where
   croots : List Nat := []
   ctxR : Reg := { done := [(0, 0)] }            -- the nil context initially (call id 0 is harmless: dominated by any real call)
   fnR : Reg := { done := [(0, 0)] }
+  svR : Reg := { done := [(0, 0)] }             -- stored state (StateRoutineContainer)
   gotState : Option Nat := none                 -- result of a GetState with no state change in flight since
   spend : Nat := 0                              -- SetState / SwapValue calls in flight
 deriving Repr
@@ -108,7 +109,8 @@ def lookupInfo (l : List (Nat × Nat × Nat × Nat)) (k : Nat) : Option (Nat × 
 def lookupProbe (l : List (Nat × Bool)) (k : Nat) : Option Bool := (l.find? (·.1 == k)).map (·.2)
 
 /-- **C05**: (1) once a superseding call has returned, every instance that was executing when it was invoked sees
-a cancelled context; (2) at quiescence at most one executing instance has a live context, and if there is one
+a cancelled context, and an instance seen with a live context stems from a possibly-current context, routine and
+(state variant) stored state — never from a replaced record; (2) at quiescence at most one executing instance has a live context, and if there is one
 its context derives from a possibly-current container context that is not cancelled, its function is a
 possibly-current one, and (state variant) its argument is the stored non-empty state. -/
 def monC05 : ObsMonitor Obs C05St where
@@ -125,12 +127,17 @@ def monC05 : ObsMonitor Obs C05St where
        | .setContext c _ => some { ms with ctxR := ms.ctxR.inv a c }
        | .setRoutine f => some { ms with fnR := ms.fnR.inv a f }
        | .setStateRoutine f => some { ms with fnR := ms.fnR.inv a f }
-       | .setState _ => some { ms with gotState := none, spend := ms.spend + 1 }
-       | .swap _ => some { ms with gotState := none, spend := ms.spend + 1 }
+       | .setState v => some { ms with gotState := none, spend := ms.spend + 1, svR := ms.svR.inv a v }
+       | .swap (some v) => some { ms with gotState := none, spend := ms.spend + 1, svR := ms.svR.inv a v }
+       | .swap none => some { ms with gotState := none, spend := ms.spend + 1 }
        | _ => some ms)
     | .ret a r =>
       let snap := lookupSnap ms.snaps a
-      let ms := { ms with ctxR := ms.ctxR.ret a true, fnR := ms.fnR.ret a true }
+      let eff := match r with
+        | .setS _ ch _ _ => ch
+        | .swapR _ _ ch _ _ => ch
+        | _ => true
+      let ms := { ms with ctxR := ms.ctxR.ret a true, fnR := ms.fnR.ret a true, svR := ms.svR.ret a eff }
       let ms := match r with
         | .setS _ _ _ _ => { ms with gotState := none, spend := ms.spend - 1 }
         | .swapR _ _ _ _ _ => { ms with gotState := none, spend := ms.spend - 1 }
@@ -145,6 +152,13 @@ def monC05 : ObsMonitor Obs C05St where
        | _ => some ms)
     | .probeCtx k c =>
       if !c && ms.doomed.contains k then none
+      else if !c && (match lookupInfo ms.info k with
+                     | some (f, arg, root) =>
+                       -- a live context: the instance is the current one, so it stems from a possibly-current
+                       -- context, routine (and stored state), not from a replaced record
+                       !(root != 0 && ms.ctxR.vals.contains root && f != 0 && ms.fnR.vals.contains f &&
+                         (!ms.cfg.state || (arg != 0 && ms.svR.vals.contains arg)))
+                     | none => false) then none
       else some { ms with lastProbe := (k, c) :: ms.lastProbe }
     | .quiesce _ run =>
       let live := run.filter fun k => lookupProbe ms.lastProbe k == some false
@@ -289,6 +303,8 @@ structure C14hSt where
   seenLive : List Nat := []                -- instances whose context was seen live after entry
   moved : List (Nat × Nat) := []           -- SetContext(c ≠ nil, restart=false) in flight ↦ the healthy instance executing at the call
   expectRun : Bool := false                -- such a call returned true while that instance was still executing
+  fns : List (Nat × Nat) := []             -- entry ↦ function tag
+  fnR : Reg := { done := [(0, 0)] }        -- possibly-current routine / state function
 deriving Repr
 
 def Op.quiet : Op → Bool
@@ -300,16 +316,21 @@ context is not cancelled unless a mutating API call was in flight when it entere
 its root context was cancelled by the environment (a retry timer that lost the race for the lock, a stale error
 or a stale pointer must not stop it); and when SetContext(ctx ≠ nil, restart = false) returns true while such an
 instance — which has not failed — is still executing, the routine runs again under the new context once that
-instance has returned (checked at quiescence points with nothing executing). -/
+instance has returned (checked at quiescence points with nothing executing); an instance seen with a live context
+runs a possibly-current routine (a record that was replaced is not run again, e.g. by its own stale retry timer). -/
 def monC14h : ObsMonitor Obs C14hSt where
   init := {}
   step := fun ms o =>
     match o with
-    | .cbin k _ _ root =>
+    | .cbin k f _ root =>
       some { ms with running := ms.running ++ [(k, !ms.pendMut.isEmpty)], roots := (k, root) :: ms.roots,
-                     expectRun := false }
+                     fns := (k, f) :: ms.fns, expectRun := false }
     | .cbout k _ => some { ms with running := ms.running.filter (·.1 != k) }
-    | .probeCtx k false => some { ms with seenLive := k :: ms.seenLive }
+    | .probeCtx k false =>
+      -- a replaced record is not run again: an instance with a live context belongs to a possibly-current routine
+      (match ms.fns.find? (·.1 == k) with
+       | some p => if ms.fnR.vals.contains p.2 then some { ms with seenLive := k :: ms.seenLive } else none
+       | none => some { ms with seenLive := k :: ms.seenLive })
     | .probeCtx k true =>
       let healthy := ms.running.any (fun p => p.1 == k && !p.2) && ms.seenLive.contains k &&
         (match ms.roots.find? (·.1 == k) with
@@ -320,6 +341,10 @@ def monC14h : ObsMonitor Obs C14hSt where
     | .envCancel c => some { ms with croots := c :: ms.croots, expectRun := false }
     | .inv a op =>
       if op.quiet then some ms else
+      let ms := match op with
+        | .setRoutine f => { ms with fnR := ms.fnR.inv a f }
+        | .setStateRoutine f => { ms with fnR := ms.fnR.inv a f }
+        | _ => ms
       some { ms with running := ms.running.map (fun p => (p.1, true)), pendMut := a :: ms.pendMut,
                      expectRun := false,
                      moved := (match op, ms.running with
@@ -328,7 +353,7 @@ def monC14h : ObsMonitor Obs C14hSt where
                                  then (a, k) :: ms.moved else ms.moved
                                | _, _ => ms.moved) }
     | .ret a r =>
-      let ms := { ms with pendMut := ms.pendMut.filter (· != a) }
+      let ms := { ms with pendMut := ms.pendMut.filter (· != a), fnR := ms.fnR.ret a true }
       let exp := match r, ms.moved.find? (·.1 == a) with
         | .bool true, some p => ms.running.any (·.1 == p.2) && ms.pendMut.isEmpty
         | _, _ => false
